@@ -37,7 +37,8 @@ FILE = {"absent": "out.json", "existing": "exist.json", "dir": "adir", "symlink-
         "parent-missing": os.path.join("nodir", "out.json"), "empty-string": "",
         "symlink-rel-in-subdir": os.path.join("sub", "rel_lnk"), "symlink-up": os.path.join("sub", "up_lnk"),
         "symlink-abs-to-file": "abs_lnk", "symlink-to-dir": "dir_lnk", "existing-dotdot": os.path.join("sub", "..", "exist.json"),
-        "absent-in-subdir": os.path.join("sub", "new.json")}
+        "absent-in-subdir": os.path.join("sub", "new.json"),
+        "absent-trailing-slash": "fresh.json/", "symlink-loop": "loop_lnk", "dangling-into-missing-dir": "dang2"}
 PRECIOUS = ("exist.json", "keep.json", "lnk", "adir", "rel_lnk", "up_lnk", "abs_lnk", "dir_lnk")
 PW = {"none": None, "ascii": "pw", "nfkd-sensitive": "p\u00e4ss\ufb01\uff11\u2126", "blank-padded": "  two  blanks ", "empty": "",
       "json-like": '[ a ] { "k" : [ 1 , 2 ] } \\ "q" ,\n\t: [\n    x\n]'}
@@ -114,6 +115,8 @@ def make_dir():
     os.symlink(os.path.join("..", "exist.json"), os.path.join(d, "sub", "up_lnk"))
     os.symlink(os.path.join(d, "exist.json"), os.path.join(d, "abs_lnk"))
     os.symlink("adir", os.path.join(d, "dir_lnk"))
+    os.symlink("loop_lnk", os.path.join(d, "loop_lnk"))
+    os.symlink(os.path.join("nodir2", "target.json"), os.path.join(d, "dang2"))
     # bystanders: files an export routine might use as scratch next to the requested name (temporary, backup, lock,
     # editor-swap names of every creatable target) - they exist already and are somebody's data
     for target in ("out.json", os.path.join("sub", "new.json"), "nowhere.json"):
